@@ -9,7 +9,7 @@ from fractions import Fraction as F
 
 import numpy as np
 
-from mc.core import Report, viol, collect_samples
+from mc.core import Report, viol, collect_samples, Isolated, Sequence
 from mc.oracles.s2 import sphere_voronoi
 from mc.histories import explore_getter_orders
 
@@ -194,9 +194,32 @@ def cases(tier):
     return out
 
 
+def _label(c):
+    return f"{c['alg']}_{c['N']} {c['t']}"
+
+
+def seq_cases(tier):
+    """Several shell-mode position grids built in ONE fresh process (DESIGN 9.12): radial grids agreeing in length, first and
+    last radius but differing inside; the same radial grid under another direction grid of the same N; a grid again."""
+    def c(alg, N, tvals):
+        return {"alg": alg, "N": N, "t": "[" + ", ".join(tvals) + "]", "radii_nm": list(tvals)}
+    ra, rb, rc = ["0.1", "0.2", "0.3", "0.4"], ["0.1", "0.25", "0.3", "0.4"], ["0.1", "0.2", "0.3", "0.45"]
+    out = []
+    for alg, other in (("ico", "randomS"), ("cube3D", "ico"), ("randomS", "cube3D")):
+        for N in ((20,) if tier == "quick" else (8, 12, 20, 42)):
+            out.append({"seq": [c(alg, N, ra), c(alg, N, rb), c(alg, N, ra)]})
+            out.append({"seq": [c(alg, N, ra), c(other, N, ra), c(alg, N, rc)]})
+            out.append({"seq": [c(alg, N, rb), c(alg, N + 1, rb), c(alg, N, ["0.25"]), c(alg, N, rb)]})
+    return out
+
+
 def run(ctx):
     rep = Report(PROPERTY, "exploration")
     cs = cases(ctx.tier)
+    scs = seq_cases(ctx.tier)
+    sres = ctx.pmap(Isolated(Sequence(run_case, _label)), scs, chunksize=1, recheck=1)
+    for r in sres:
+        rep.add_violations(r["violations"])
     res = ctx.pmap(run_case, cs, chunksize=2, recheck=3)
     ocs = [{"order": True, "o": o, "t": t} for o, t in (("ico_7", "[0.1, 0.25, 0.3]"), ("cube3D_5", "0.3"),
                                                         ("randomS_9", "[0.3, 0.1, 0.25, 0.7]"))]
@@ -204,6 +227,7 @@ def run(ctx):
     for r in res + ores:
         rep.add_violations(r["violations"])
     rep.coverage = {
+        "histories_in_one_process": len(scs), "grids_in_histories": sum(r["members"] for r in sres),
         "evaluations": sum(r["cells"] ** 2 for r in res),
         "distinct_nontrivial": len(cs),
         "rule": "3 direction algorithms x N menu x radial grids (1..6 radii, unequal increments, unsorted, "
@@ -220,4 +244,6 @@ def run(ctx):
 def replay(case):
     if case.get("order"):
         return order_case(case)["violations"]
+    if "seq" in case:
+        return Sequence(run_case, _label)(case)["violations"]
     return run_case(case)["violations"]
